@@ -519,6 +519,9 @@ func Bubble(parent *testing.T, f func() error) (err error) {
 	go func() {
 		defer close(done)
 		defer func() {
+			if os.Getenv("VERIF_BUBBLE_NORECOVER") != "" {
+				return // debugging aid: let a deadlock panic kill the process so that every goroutine is dumped
+			}
 			if r := recover(); r != nil {
 				err = fmt.Errorf("bubble: %v", r)
 			}
